@@ -1522,11 +1522,42 @@ class LuaMinifyTokenWriter(BaseLuaWriter):
         self._last_was_name_keyword_number = False
         self._last_was_newline = True
 
+    # For a character that can end a token: the characters that must not
+    # directly follow it, because the two would be read as (the start of) a
+    # different token: a comment (-- //), a longer operator (.. ... == <<
+    # >>> ^^ += and so on), a label (::), a long bracket ([[ [=[) or a
+    # number (.5).
+    _FUSING_CHARS = {
+        b'-': b'-=', b'/': b'/=', b'+': b'=', b'*': b'=', b'%': b'=',
+        b'.': b'.=0123456789', b'=': b'=', b'~': b'=', b'<': b'<>=',
+        b'>': b'<>=', b'^': b'^=', b'|': b'=', b'&': b'=', b'\\': b'=',
+        b'[': b'[=', b':': b':'}
+
+    @classmethod
+    def _fuses(cls, prev, code):
+        """Whether code written directly after prev would lex differently."""
+        if not prev or not code:
+            return False
+        if (code[:1] == b'.' and
+            (prev[:1].isdigit() or
+             (prev[:1] == b'.' and prev[1:2].isdigit()))):
+            # A number followed by a dot, as in 1 .. x
+            return True
+        return code[:1] in cls._FUSING_CHARS.get(prev[-1:], b'')
+
     def to_lines(self):
         """
         Yields:
           Chunks of Lua code.
         """
+        prev = b''
+        for chunk in self._minified_chunks():
+            if self._fuses(prev, chunk):
+                yield b' '
+            yield chunk
+            prev = chunk
+
+    def _minified_chunks(self):
         seen_header_comments = 0
         seen_non_comment_token = False
 
